@@ -451,6 +451,7 @@ type Contract struct {
 	SplitReturns bool  // check the postconditions separately at every return statement (simpler terms than the merged state)
 	ExactEmits   bool  // the declared emits are exactly the function's own activation trace (checked)
 	Asserts      []*MidAssert
+	Returns      []LetDef // `returns r = e`: result r of an assumed (external) function IS the value of e, an expression over the arguments
 }
 
 type MidAssert struct {
@@ -922,6 +923,16 @@ func (c *Contract) addClause(word, rest string) error {
 		c.HasMod = true
 	case "trusted":
 		c.Trusted = true
+	case "returns":
+		i := strings.Index(rest, "=")
+		if i < 0 {
+			return fmt.Errorf("bad returns clause (want: returns name = expr)")
+		}
+		e, err := ParseExpr(strings.TrimSpace(rest[i+1:]))
+		if err != nil {
+			return err
+		}
+		c.Returns = append(c.Returns, LetDef{Name: strings.TrimSpace(rest[:i]), E: e})
 	case "inline":
 		c.Inline = true
 	case "fresh":
